@@ -804,6 +804,11 @@ func (e *Enc) atCallAssertsPhase(site ssa.Instruction, key string, args []Value,
 		if err != nil {
 			e.fatal("at call %s#%d: %v", ac.Callee, ac.Ord, err)
 		}
+		if ac.Assume {
+			e.assume(t, "ghost binding after call to "+ac.Callee+": "+ac.C.Src)
+			e.assumption("ghost binding (assumed) after call to " + ac.Callee + " in " + e.fnLabel + ": " + ac.C.Src)
+			continue
+		}
 		e.assertOb(fmt.Sprintf("at@%s#%d.%d", shortName(ac.Callee), ac.Ord, i+1), t, "assertion before call to "+ac.Callee+": "+ac.C.Src, posOf(site))
 	}
 }
